@@ -63,7 +63,7 @@ def rename_locals(src: str, tree: ast.Module) -> ast.Module:
             todo = set()
             for s in t.get_symbols():
                 nm = s.get_name()
-                if s.is_local() and not s.is_parameter() and not s.is_global() and not s.is_nonlocal() and not s.is_free() and nm not in inner and nm not in special and not nm.startswith("__") and s.is_assigned():
+                if s.is_local() and not s.is_parameter() and not s.is_global() and not s.is_nonlocal() and not s.is_free() and nm not in inner and nm not in special and not nm.startswith("__") and nm != "_" and s.is_assigned():
                     todo.add(nm)
             if not todo:
                 return node
